@@ -482,7 +482,8 @@ def r09_4(prog: Program, rep: Report):
                     ok = True
     rep.check(ok, "R09.4", g.qualname, g.loc, "itertypes yields TopologicalSorter.static_order() of get_type_graph(t)", "itertypes does not yield the sorter's static order of the type graph", detail="itertypes")
     memo = prog.is_memoised(f)
-    rep.check(bool(memo), "R09.4", f.qualname, f.loc, "static_order is memoised (reference inputs share the evaluated type's entry)", "static_order is no longer memoised", detail="memo")
+    # (whether static_order is memoised is not observable in its result: recorded, not required)
+    rep.held("R09.4", f.qualname, f.loc, "static_order is memoised (reference inputs share the evaluated type's entry)" if memo else "static_order is not memoised (each call walks the graph again; the result is the same)", detail="memo", nontrivial=bool(memo))
 
 
 def r09_10(prog: Program, rep: Report, rule="R09.10"):
